@@ -78,6 +78,11 @@ ENC = 50000
 
 
 def setup():
+    # whatever typhon.topography resolves at *import* time must not reach the
+    # user's real cache (state shared by all runs): the process environment
+    # points to a scratch directory that is emptied before every run
+    _T["import_time_cache"] = os.path.join(scratch_root(), f"c20-import-{os.getpid():08d}")
+    os.environ["TYPHON_DATA_PATH"] = _T["import_time_cache"]
     import_typhon()
     import typhon.topography as tmod
     _T.update(tmod=tmod, SRTM30=tmod.SRTM30, tiles={t[0]: t for t in tmod.SRTM30._tiles})
@@ -313,6 +318,7 @@ def expected_tiles(lat_min, lon_min, lat_max, lon_max):
 # ------------------------------------------------------------------- the run
 def run_one(tape, only=None):
     res = new_result()
+    shutil.rmtree(_T["import_time_cache"], ignore_errors=True)
     _T["state"].restore()       # every run starts from a fresh interpreter state
     w = gen_workload(tape)
     tmod, SRTM30 = _T["tmod"], _T["SRTM30"]
